@@ -1547,10 +1547,13 @@ where
             }
             if S::NAME != "ipa" {
                 // exactly one above what the keys were trimmed for (the boundary), and two above
+                // PST13 keeps the blinding tables of the whole supported degree whatever hiding bound `trim` was
+                // asked for: its capacity is max(trimmed hiding bound, supported degree)
+                let cap = if S::NAME == "pst13" { inst.shb.max(sizes.supported) } else { inst.shb };
                 for over in [1usize, 2] {
-                    let lp = LabeledPolynomial::new("hbig".to_string(), p.clone(), None, Some(inst.shb + over));
+                    let lp = LabeledPolynomial::new("hbig".to_string(), p.clone(), None, Some(cap + over));
                     let r = guarded(|| S::PC::commit(&inst.ck, [&lp], Some(&mut rng.clone())));
-                    refuse(ctx, &id, "hiding-beyond-key", matches!(r, Ok(Ok(_))), format!("hiding_bound = (trimmed hiding bound)+{} = {}", over, inst.shb + over));
+                    refuse(ctx, &id, "hiding-beyond-key", matches!(r, Ok(Ok(_))), format!("hiding_bound = (hiding capacity of the keys)+{} = {}", over, cap + over));
                 }
             }
             let lp = LabeledPolynomial::new("norng".to_string(), p.clone(), None, Some(1));
